@@ -212,8 +212,9 @@ class TDConfig:
 
     def __init__(self, K, widths, kmin, kmax, successive, index_std, birth, inner,
                  model_prop='bounded_discrete', extra=None, betas=(1.0,), swap_interval=1,
-                 window=6, inner_seed=0, birth_box=None):
+                 window=6, inner_seed=0, birth_box=None, blobs=False):
         self.K, self.widths = K, list(widths)
+        self.blobs = bool(blobs)                # the model returns blobs (the number of active components, k^2)
         self.kmin, self.kmax = kmin, kmax
         self.successive, self.index_std = successive, index_std
         self.birth, self.inner, self.model_prop = birth, inner, model_prop
@@ -386,6 +387,8 @@ class HarnessModel:
                 if math.isnan(v):
                     continue
                 if abs(v) > 5.5:
+                    if getattr(cfg, 'blobs', False):
+                        return 0.0, -numpy.inf, {'nact': -1.0, 'ksq': float(int(kw['k']) ** 2)}
                     return 0.0, -numpy.inf
                 logl += -0.5 * (v - 1.0 - 0.25 * i) ** 2 / (0.75 + 0.125 * j)
                 logp += -0.03125 * v * v - 0.5
@@ -393,6 +396,9 @@ class HarnessModel:
             z = float(kw['z'])
             logl += -0.5 * z * z
             logp += -0.25 * abs(z)
+        if getattr(cfg, 'blobs', False):
+            nact = sum(1 for i in range(cfg.K) if not math.isnan(float(kw[cfg.names(i)[0]])))
+            return logl, logp, {'nact': float(nact), 'ksq': float(int(kw['k']) ** 2)}
         return logl, logp
 
 
@@ -1081,11 +1087,13 @@ def gen_run_cfg(rng, pt):
         kmin = rng.randint(0, K - 2)
         kmax = rng.randint(kmin + 1, K)
     betas = [1.0] if not pt else [1.0] + sorted(rng.sample([0.6, 0.3, 0.1, 0.0], rng.randint(1, 3)), reverse=True)
-    return TDConfig(K, widths, kmin, kmax, rng.random() < 0.5, rng.choice([0.75, 1.0, 2.0, 3.0]),
+    # index proposals far wider than the index range (long rejection streaks in the model proposal) and
+    # models with blobs (another optional part of the state a swap has to move) are part of the mix
+    return TDConfig(K, widths, kmin, kmax, rng.random() < 0.5, rng.choice([0.75, 1.0, 2.0, 3.0, 16.0, 200.0]),
                     rng.choice(BIRTHS), inner, model_prop=rng.choice(MODEL_PROPS),
                     extra=rng.choice([None, 'normal', 'bounded_normal']), betas=betas,
                     swap_interval=rng.choice([1, 1, 2, 3]), window=rng.randint(4, 24),
-                    inner_seed=rng.randint(0, 10 ** 6))
+                    inner_seed=rng.randint(0, 10 ** 6), blobs=rng.random() < 0.5)
 
 
 def start_pattern(cfg, rng, which):
